@@ -189,6 +189,7 @@ static void m_reset(void) {
     memset(aval, 0, sizeof(aval));
 }
 static void m_teardown(void) {
+    if (esx_failed) return; /* after a reported violation the state is unspecified; --replay does not tear down either */
     aws_json_value_destroy(O);
     aws_json_value_destroy(R);
     O = R = NULL;
